@@ -8,6 +8,7 @@ import re, os, glob
 REPO = os.environ.get('VERIF_REPO', '/repo')
 
 STD_ENUMS = {
+    'LineColLocation': ['Pos', 'Span'],      # pest::error::LineColLocation (declaration order)
     'Option': ['None', 'Some'],
     'Result': ['Ok', 'Err'],
     'ControlFlow': ['Continue', 'Break'],
